@@ -1,7 +1,7 @@
 """C07, C08, C09, C11, C12, C13-Q1, C14, C16, C17, C20."""
 import re
 
-from core import ExprBuilder, callee_name, expr_str, short, strip_generics, walk, places_in, calls_in, is_transparent
+from core import ExprBuilder, callee_name, expr_str, short, strip_generics, walk, places_in, calls_in, is_transparent, dominators
 from df import Flow, world_str
 from engine import rule, ok, bad, undecided, at, Anchor
 from common import (
@@ -898,3 +898,53 @@ def c09_g8(ctx):
                 yield bad("C09-G8", key, at(f, t["span"]["line"]), "the held-range list is mutated by %s in %s" % (last, fname))
     if n == 0:
         raise Anchor("C09-G8", "mutations of RecvTransaction.saved_segments")
+
+
+# ================================================================ C13-Q4
+TRUNCATING = ("std::fs::write", "std::fs::copy", "std::fs::File::create", "std::fs::File::create_new", "std::fs::rename")
+COMPLETE_READ = ("std::fs::read", "std::fs::read_to_string", "std::io::Read::read_to_end", "std::io::Read::read_to_string")
+
+
+@rule("C13", "C13-Q4", 1, "a two-file filestore operation that overwrites file 1 with file 2 has read file 2 completely before it touches file 1 (a request that fails while reading changes nothing)")
+def c13_q4(ctx):
+    fns = [f for f in ctx.prog.by_norm.values() if f.crate == "cfdp_core" and (f.impl_trait or "").endswith("filestore::FileStore") and f.name in ("replace_file",)]
+    if not fns:
+        raise Anchor("C13-Q4", "impl FileStore::replace_file")
+    dom = None
+    for f in fns:
+        eb = ExprBuilder(ctx.prog, f)
+        dom = dominators(f)
+        params = [vn for vn, l, pj in f.var_places if not pj and 2 <= l <= f.arg_count]
+        if len(params) != 2:
+            raise Anchor("C13-Q4", "replace_file(path1, path2)")
+        p1, p2 = params
+
+        def mentions(e, name):
+            return any(p == name or p.startswith(name + ".") for p in places_in(e))
+
+        reads2 = []
+        sinks1 = []
+        for b, t in f.all_calls():
+            d, r, _ = ctx.prog.callee_of(t)
+            cal = r or d or ""
+            e = eb.call(b, t)
+            if cal.startswith(COMPLETE_READ) and any(mentions(a, p2) for a in e[3]):
+                reads2.append(b)
+            trunc = cal.startswith(TRUNCATING)
+            if cal.endswith("OpenOptions::open") and e[3]:
+                chain = expr_str(e[3][0])
+                trunc = "truncate(" in chain and "const(1)" in chain or "OpenOptions::create(" in chain
+            if trunc and e[3] and mentions(e[3][0] if not cal.endswith("OpenOptions::open") else e[3][1], p1):
+                sinks1.append((b, t, cal))
+            elif cal.startswith("std::fs::copy") and len(e[3]) > 1 and mentions(e[3][1], p1):
+                sinks1.append((b, t, cal))
+        who = short(f.impl_self_adt or f.norm)
+        if not sinks1:
+            yield undecided("C13-Q4", "%s::replace_file:overwrite" % who, at(f), "no recognised overwriting call on file 1 (idiom changed?)")
+            continue
+        for b, t, cal in sinks1:
+            key = "%s::replace_file:%s" % (who, cal.split("::")[-1])
+            if reads2 and any(rb in dom.get(b, ()) and rb != b for rb in reads2):
+                yield ok("C13-Q4", key, at(f, t["span"]["line"]), "%s on file 1 is dominated by a complete read of file 2" % cal.split("::")[-1])
+            else:
+                yield bad("C13-Q4", key, at(f, t["span"]["line"]), "%s truncates / overwrites file 1 before file 2 has been read completely: a read failure (or file 1 == file 2) leaves file 1 changed although the request failed" % cal)
